@@ -46,7 +46,6 @@ Fixpoint insert_N (n : N) (l : list N) : list N :=
   end.
 Definition sort_dedup (l : list N) : list N := fold_right insert_N [] l.
 
-Definition is_running (q : qstate) : bool := match q_running q with Some _ => true | None => false end.
 
 Definition hook_v0 (cfg : config) (h : N) : bool :=
   match find_hook cfg h with Some x => h_v0 x | None => false end.
